@@ -181,6 +181,7 @@ struct Opts {
   int N = 1;
   int fill = 0;       // byte the storage of the objective function is filled with before construction
   int family = 0;     // 0 general, 1 power-of-two means (additive chosen accordingly), 2 power-of-two means without additive term
+  bool approx = false; // power-of-two families: no zero counts, so that the approximate Hessian (which divides by y) can be requested
 };
 static const char* norm_names[] = { "trivial", "projdata", "chained", "eff", "chained_eff" };
 
@@ -208,7 +209,7 @@ static Inst make_inst(const Sys& s, const Matrix& m, vh::Rng& rng, const Opts& o
       else a = rng.range(0, 4);
     }
     const int d = pl + a;
-    const int r = p2 ? rng.range(1, 2) : rng.range(0, 3);
+    const int r = p2 ? (o.approx ? rng.range(1, 2) : rng.range(0, 2)) : rng.range(0, 3);
     in.a.push_back(a);
     in.y.push_back(r * d * d);
     in.e.push_back(0);
@@ -452,7 +453,7 @@ static void run(vh::Trace& tr, const Sys& s, const Matrix& m, const Inst& in, co
   vh::Json ji("Instance");
   ji.num("sys", m.id).boolean("tof", s.tof).boolean("tofSensAsked", o.tofsens).boolean("tofNorm", o.tofnorm).boolean("additive", o.additive)
       .str("norm", norm_names[o.norm]).boolean("wrapNorm", o.wrapnorm).boolean("zero", o.zero).num("maxSegAsked", o.maxseg).boolean("uss", o.uss)
-      .num("N", o.N).boolean("prior", o.prior).boolean("supplied", o.supplied).boolean("cache", o.cache).num("fill", o.fill).num("family", o.family)
+      .num("N", o.N).boolean("prior", o.prior).boolean("supplied", o.supplied).boolean("cache", o.cache).num("fill", o.fill).num("family", o.family).boolean("approx", o.approx)
       .arr("lam", in.lam).arr("x", in.x).arr("y", in.y).arr("a", in.a).arr("ef", in.e);
   if (o.prior) {
     shared_ptr<Img> g(lam->get_empty_copy()), h(lam->get_empty_copy()), ah(lam->get_empty_copy());
@@ -489,7 +490,7 @@ static void run(vh::Trace& tr, const Sys& s, const Matrix& m, const Inst& in, co
 
   std::vector<Req> reqs;
   if (fixed_reqs) reqs = *fixed_reqs;
-  else reqs = all_requests(o, rng, !o.supplied, o.family != 0);
+  else reqs = all_requests(o, rng, !o.supplied, o.approx);
   for (const Req& q : reqs) do_request(tr, s, of, rec, q, *lam, *x, rng);
 }
 
@@ -509,6 +510,7 @@ static Opts random_opts(const Sys& s, vh::Rng& rng, long i) {
   static const int fills[] = { 0x00, 0xFF, 0x01 };
   o.fill = fills[i % 3];
   o.family = rng.range(0, 4) < 2 ? 0 : (rng.coin() ? 1 : 2);
+  o.approx = o.family != 0 && rng.coin();
   if (o.family == 1) o.additive = true;
   if (o.family == 2) o.additive = false;
   return o;
@@ -574,6 +576,7 @@ int main(int argc, char** argv) {
           o.uss = supplied == 0;
           o.prior = false;
           o.family = 1;
+          o.approx = true;
           Matrix m = make_matrix(tr, sys[t], rng, 2, 2, true);
           Inst in = make_inst(sys[t], m, rng, o);
           if (supplied) {
